@@ -3,6 +3,7 @@ import ast
 
 from ..model import (AnalysisError, FUNC_TYPES, U, call_attr, call_name, dotted, enclosing, enclosing_function, guard_texts, guards_ex,
                      short, walk_body, walk_local, ancestors, parent, const_str, kwarg)
+from ..absint import unroll_literal_loops
 from ..util import params, find_calls, assigns_to, trace, stmt_of, has_exit, syn_dominates
 from ..cfg import handler_names, is_catch_all
 from ..settype import Kinds, iterations, classify_sinks
@@ -87,8 +88,18 @@ def r1_pairing(cx, mods, sers, desers):
     ok = ok and any(U(r.value) == "SERIALIZERS.get(dr.get_name(type(obj)))" for r in walk_body(g2.body) if isinstance(r, ast.Return))
     cx.require(ok, gs, "serialize() looks the serializer up by, and records, the exact type name of the object", construct="'type': dr.get_name(type(obj))")
     ds = sd.func("deserialize", "C11.R1")
-    td = [a for a in walk_body(ds.body) if isinstance(a, ast.Assign) and U(a.value) == "DESERIALIZERS.get(data['type'])"]
-    cx.require(bool(td), ds, "deserialize() looks the deserializer up by the recorded type name", construct="DESERIALIZERS.get(data['type'])")
+    dparam = params(ds)[0]
+    looks = []
+    for n in ast.walk(ds):
+        key = None
+        if isinstance(n, ast.Call) and call_attr(n) == "get" and U(n.func.value) == "DESERIALIZERS" and n.args:
+            key = n.args[0]
+        elif isinstance(n, ast.Subscript) and U(n.value) == "DESERIALIZERS" and isinstance(n.ctx, ast.Load):
+            key = n.slice
+        if key is not None:
+            looks.append((n, U(trace(key, ds))))
+    ok = bool(looks) and all(k == "%s['type']" % dparam for n, k in looks)
+    cx.require(ok, looks[0][0] if looks else ds, "deserialize() looks the deserializer up by the recorded type name", construct="; ".join("%s keyed by %s" % (short(n, 50), k) for n, k in looks) or "(no DESERIALIZERS look-up)")
 
 
 def _ser_dict(fn):
@@ -114,6 +125,8 @@ def r2_r3_r4(cx, sers, desers):
         if d is None:
             cx.unknown(sfn, "serializer does not return one dict literal")
             continue
+        # view: a loop over a literal tuple of field names (setattr(res, attr, data[attr])) is the unrolled sequence of assignments
+        unroll_literal_loops(dfn)
         dp = params(dfn)
         data = dp[1]
         reads = [n for n in walk_body(dfn.body) if isinstance(n, ast.Subscript) and U(n.value) == data and const_str(n.slice) is not None]
